@@ -106,12 +106,35 @@ class Renderer:
     """Canonical layout: one statement per line; every node gets
     ln = [line of first token, line of last token]."""
 
-    def __init__(self, prog, rng=None, extra_parens=0.0):
+    def __init__(self, prog, rng=None, extra_parens=0.0, layout="canon"):
         self.p = prog
         self.n = prog.nodes
         self.lines = [""]
         self.rng = rng
         self.extra_parens = extra_parens
+        self.layout = layout          # canon | shift (blank/comment lines between lines) | spread (line breaks inside statements)
+        self.cur_indent = 0
+
+    COMMENTS = ["", "", "-- c", "--[[ a", "--[==[ x ]==]", "\t", "-- [[ not long", "--[[x]] --[[y]]"]
+
+    def filler(self):
+        """blank lines and comments of every form between two lines (shift layouts)"""
+        if self.layout not in ("shift", "spread") or not self.rng:
+            return
+        for _ in range(self.rng.choice([0, 0, 1, 1, 2, 3])):
+            c = self.rng.choice(self.COMMENTS)
+            if c == "--[[ a":
+                self.lines.append("--[[ a")
+                self.lines.append("   multi-line comment ]]")
+            else:
+                self.lines.append(c)
+
+    def brk(self):
+        """optional line break inside an expression (spread layout)"""
+        if self.layout == "spread" and self.rng and self.rng.random() < 0.45:
+            if self.rng.random() < 0.3:
+                self.w(" -- trailing")
+            self.lines.append("  " * (self.cur_indent + 2))
 
     @property
     def line(self):
@@ -121,6 +144,8 @@ class Renderer:
         self.lines[-1] += s
 
     def nl(self, indent):
+        self.filler()
+        self.cur_indent = indent
         self.lines.append("  " * indent)
 
     def prec(self, e):
@@ -166,6 +191,7 @@ class Renderer:
         for i, e in enumerate(es):
             if i:
                 self.w(", ")
+                self.brk()
             self.expr(e, indent)
 
     def _expr(self, e, nd, indent):
@@ -209,11 +235,13 @@ class Renderer:
             p = PREC[op]
             self.expr(nd["l"], indent, p, strict=(op in RIGHT))
             self.w(" " + op + " ")
+            self.brk()
             self.expr(nd["r"], indent, p, strict=(op not in RIGHT))
         elif k in ("and", "or"):
             p = PREC[k]
             self.expr(nd["l"], indent, p)
             self.w(" " + k + " ")
+            self.brk()
             self.expr(nd["r"], indent, p, strict=True)
         elif k == "un":
             op = nd["op"]
@@ -371,13 +399,201 @@ class Renderer:
         return "\n".join(self.lines) + "\n"
 
 
-def render(prog, root, rng=None, extra_parens=0.0):
-    r = Renderer(prog, rng, extra_parens)
+def render(prog, root, rng=None, extra_parens=0.0, layout="canon", eol="\n"):
+    r = Renderer(prog, rng, extra_parens, layout)
     src = r.render(root)
     for nd in prog.nodes[1:]:
         if "ln" not in nd:
             nd["ln"] = [0, 0]
+    if layout == "spread":
+        widen_to_statement(prog, root)
+    if eol != "\n":
+        src = src.replace("\n", eol)
     return src
+
+
+EXPR_FIELDS = {"index": ["o", "i"], "call": ["f"], "method": ["o"], "bin": ["l", "r"], "and": ["l", "r"], "or": ["l", "r"],
+               "un": ["e"], "paren": ["e"]}
+
+
+def children_exprs(nd):
+    k = nd["k"]
+    out = [nd[f] for f in EXPR_FIELDS.get(k, [])]
+    if k in ("call", "method"):
+        out += nd["as"]
+    if k == "table":
+        for it in nd["it"]:
+            if it["kk"]:
+                out.append(it["kk"])
+            out.append(it["v"])
+    return out
+
+
+def stmt_exprs(nd):
+    k = nd["k"]
+    if k == "local":
+        return nd["es"]
+    if k == "assign":
+        return nd["ts"] + nd["es"]
+    if k == "callstat":
+        return [nd["e"]]
+    if k in ("while", "repeat"):
+        return [nd["c"]]
+    if k == "if":
+        return nd["cs"]
+    if k == "fornum":
+        return [x for x in (nd["e1"], nd["e2"], nd["e3"]) if x]
+    if k == "forin":
+        return nd["es"]
+    if k == "return":
+        return nd["es"]
+    return []
+
+
+def stmt_blocks(nd):
+    k = nd["k"]
+    if k in ("do", "while", "repeat", "fornum", "forin"):
+        return [nd["b"]]
+    if k == "if":
+        return nd["bs"] + ([nd["el"]] if nd["el"] else [])
+    return []
+
+
+def walk(prog, root, on_stmt=None, on_expr=None, on_func=None):
+    """generic AST walk: on_stmt(stmt_id), on_expr(expr_id, stmt_id), on_func(func_id, enter)"""
+    n = prog.nodes
+
+    def expr(e, sid):
+        nd = n[e]
+        if on_expr:
+            on_expr(e, sid)
+        if nd["k"] == "func":
+            if on_func:
+                on_func(e, True)
+            block(nd["b"])
+            if on_func:
+                on_func(e, False)
+            return
+        for c in children_exprs(nd):
+            expr(c, sid)
+
+    def block(b):
+        for s in n[b]["ss"]:
+            nd = n[s]
+            if on_stmt:
+                on_stmt(s)
+            if nd["k"] == "localfunction":
+                expr(nd["f"], s)
+                continue
+            for e in stmt_exprs(nd):
+                expr(e, s)
+            for bb in stmt_blocks(nd):
+                block(bb)
+    block(root)
+
+
+def widen_to_statement(prog, root):
+    """C17 membership rule: an error must name a line of the innermost statement (or
+    block header); expression nodes get the span of that statement/header.  The
+    until-condition of repeat is rendered after the body and keeps its own span."""
+    n = prog.nodes
+    spans = {}
+
+    def on_expr(e, sid):
+        nd, sd = n[e], n[sid]
+        if nd["k"] == "func" or sd["k"] == "repeat" or sd["k"] == "localfunction":
+            return
+        lo, hi = sd["ln"]
+        # a statement containing function bodies spans them; keep to the header part when known
+        if nd["ln"][0] >= lo and nd["ln"][1] <= hi:
+            spans[e] = [min(lo, nd["ln"][0]), max(hi, nd["ln"][1])]
+    walk(prog, root, on_expr=on_expr)
+    # expressions inside a function body nested in a statement belong to their own statements:
+    # walk() reports them with the inner statement id, so spans are already innermost
+    for e, sp in spans.items():
+        n[e]["ln"] = sp
+
+
+def finalize(prog, root):
+    """adds the upvalue names of every function (uv, sorted) and a final `names`
+    node mapping every identifier to its bytes (used by the debug builtins)"""
+    n = prog.nodes
+    names = set()
+    # scope resolution
+    funcs = [{"id": 0, "scopes": [set()], "uv": set()}]
+
+    def declare(name):
+        funcs[-1]["scopes"][-1].add(name)
+        names.add(name)
+
+    def resolve(name):
+        names.add(name)
+        for depth in range(len(funcs) - 1, -1, -1):
+            if any(name in sc for sc in funcs[depth]["scopes"]):
+                for f in funcs[depth + 1:]:
+                    f["uv"].add(name)
+                return
+        # global
+
+    def do_expr(e):
+        nd = n[e]
+        k = nd["k"]
+        if k == "id":
+            resolve(nd["n"])
+        elif k == "func":
+            funcs.append({"id": e, "scopes": [set(nd["ps"]) | ({"arg"} if nd["va"] and not nd["ud"] else set())], "uv": set()})
+            names.update(nd["ps"])
+            names.add("arg")
+            do_block(nd["b"], new_scope=False)
+            f = funcs.pop()
+            nd["uv"] = sorted(f["uv"])
+        else:
+            for c in children_exprs(nd):
+                do_expr(c)
+
+    def do_block(b, new_scope=True, extra=None):
+        if new_scope:
+            funcs[-1]["scopes"].append(set(extra or []))
+        for s in n[b]["ss"]:
+            nd = n[s]
+            k = nd["k"]
+            if k == "local":
+                for e in nd["es"]:
+                    do_expr(e)
+                for nm in nd["ns"]:
+                    declare(nm)
+            elif k == "localfunction":
+                declare(nd["n"])
+                do_expr(nd["f"])
+            elif k == "repeat":
+                funcs[-1]["scopes"].append(set())
+                do_block(nd["b"], new_scope=False)
+                do_expr(nd["c"])
+                funcs[-1]["scopes"].pop()
+            elif k == "fornum":
+                for e in stmt_exprs(nd):
+                    do_expr(e)
+                names.add(nd["v"])
+                do_block(nd["b"], extra=[nd["v"]])
+            elif k == "forin":
+                for e in nd["es"]:
+                    do_expr(e)
+                names.update(nd["ns"])
+                do_block(nd["b"], extra=nd["ns"])
+            else:
+                for e in stmt_exprs(nd):
+                    do_expr(e)
+                for bb in stmt_blocks(nd):
+                    do_block(bb)
+        if new_scope:
+            funcs[-1]["scopes"].pop()
+    do_block(root, new_scope=False)
+    for nd in n[1:]:
+        if nd["k"] == "func" and "uv" not in nd:
+            nd["uv"] = []
+    if n[-1]["k"] == "names":
+        n.pop()
+    prog.add("names", tab={nm: sbytes(nm) for nm in sorted(names)} or {"_": [95]})
 
 
 def to_record(pid, prog, root, src=None):
